@@ -24,7 +24,7 @@ echo "demo without patch: exit $(run_demo)" >> "$LOG"
 if ! git -C "$WT" apply "$DST/patch.diff" 2>>"$LOG"; then echo "PATCH DOES NOT APPLY" >> "$LOG"; cat "$LOG"; git -C /repo worktree remove --force "$WT"; exit 1; fi
 echo "demo with patch: exit $(run_demo)" >> "$LOG"
 (cd "$WT" && env -u PYVSC_VERIF PYTHONPATH="$WT/src" timeout 3000 /venv/bin/python -m pytest -q -p no:cacheprovider --timeout=900 \
-   --continue-on-collection-errors -n 6 --junitxml=/tmp/seedchk_$ID.xml ve/unit >/dev/null 2>&1)
+   --continue-on-collection-errors -W ignore::DeprecationWarning -n 6 --junitxml=/tmp/seedchk_$ID.xml ve/unit >/dev/null 2>&1)
 /venv/bin/python - "$ID" >> "$LOG" <<'PY'
 import sys, xml.etree.ElementTree as ET
 try:
